@@ -62,6 +62,10 @@ def render(cfg, dev):
     cms = cfg.get("cmaps", {})
     for k in sorted(cms, key=lambda k: (cms[k]["name"], cms[k]["seq"])):
         e = cms[k]
+        if e.get("typ", "ipsec-isakmp") == "gdoi":
+            out.append("crypto map %s %d gdoi" % (e["name"], e["seq"]))
+            out.append(" set group " + e["name"])
+            continue
         out.append("crypto map %s %d ipsec-isakmp" % (e["name"], e["seq"]))
         if dev and not e["peers"]:
             out.append(" ! Incomplete")
@@ -175,9 +179,9 @@ def parse_cmd(line):
         return {"ev": "AceDelete" if no else "SeqAppend", "ace": parse_ace(tok)}
     if tok[0] == "interface" and not no:
         return {"ev": "IntfEnter", "i": RIFNAME[tok[1]]}
-    if tok[:2] == ["crypto", "map"] and len(tok) == 5 and tok[4] == "ipsec-isakmp":
+    if tok[:2] == ["crypto", "map"] and len(tok) == 5 and tok[4] in ("ipsec-isakmp", "gdoi"):
         k = cm_key(tok[2], int(tok[3]))
-        return {"ev": "CmDelete", "k": k} if no else {"ev": "CmEnter", "k": k, "name": tok[2], "seq": int(tok[3])}
+        return {"ev": "CmDelete", "k": k} if no else {"ev": "CmEnter", "k": k, "name": tok[2], "seq": int(tok[3]), "typ": tok[4]}
     if tok[:2] == ["crypto", "map"] and len(tok) == 3:
         return {"ev": "IntfCm", "name": tok[2], "no": no}
     if tok[:2] == ["set", "peer"] and len(tok) == 3:
@@ -283,7 +287,7 @@ class Replica:
             elif f[e["dir"]] == e["n"]:
                 f[e["dir"]] = ""
         elif ev == "CmEnter":
-            self.cmaps.setdefault(e["k"], {"name": e["name"], "seq": e["seq"], "peers": [], "fin": "", "fout": ""})
+            self.cmaps.setdefault(e["k"], {"name": e["name"], "seq": e["seq"], "typ": e["typ"], "peers": [], "fin": "", "fout": ""})
             self.mode = ("cm", e["k"])
         elif ev == "CmDelete":
             self.mode = ("", "")
